@@ -583,6 +583,7 @@ def k4_outer(c):
     t, e, sl, isdata, ntok = k4_defs(c)
     cur = t + 1 + c.i
     return [("cursor-start", c.x["cur0"] == t + 1), ("line_no", c.v("line_no").t == t + c.i),
+            ("within-the-body (for a non-empty body)", z3.Implies(t < e, t + c.i < e)),
             ] + k4_counts(c, cur, c.v("item_counts"))
 
 
@@ -597,7 +598,8 @@ def k4_post(c):
     t, e, sl, isdata, ntok = k4_defs(c)
     n = c.res.items[0].t
     return [("a-column-count-is-reported-only-when-every-sampled-data-line-has-that-many-tokens", z3.Implies(n != -1, forall(k, z3.Implies(
-        z3.And(t < k, k < cursor(c), isdata(k)), ntok(k) == n))))]
+        z3.And(t < k, k < cursor(c), isdata(k)), ntok(k) == n)))),
+        ("no-line-beyond-the-section's-last-line-is-inspected (non-empty body)", z3.Implies(t < e, cursor(c) <= e + 1))]
 
 
 K4V = REG.add(Contract(
@@ -611,7 +613,8 @@ K4V = REG.add(Contract(
     local_types={"item_counts": LIST(INT), "hyphen_exists": LIST(INT)},
     ghost_init=k4_init, reveal=("io", "num"), loop_fields=["$cursor"], modifies={"$cursor": None},
     abstract_exprs=True, only_on_request=True, break_cut={0: ["if (line_no == line_nos[1])"]},
-    properties=("C07", "C01", "C09"), may_raise=["Any"]))
+    break_cut_skip=("within-the-body (for a non-empty body)",),
+    properties=("C07", "C01", "C09", "C02", "C05"), may_raise=["Any"]))
 K4V.note = "the final filtering of regexp_subs (list comprehension with `not in`) is abstracted to an opaque value"
 
 
@@ -766,3 +769,45 @@ R4A = REG.add(Contract(
             "read_policy": OBJ, "null_policy": OBJ},
     ensures=r4a_post, verify_with=r4a_verify, may_raise=["Any"], free_default=True, modifies={}, ghost_init=r4a_init,
     properties=("C05", "C06", "C02")))
+
+
+# ---------------------------------------------------------------- R8: curves without a data column are filled with NaN
+np_empty = z3.Function("np_empty", PyObj, PyObj)          # numpy.empty(n): a new float64 array of length n (T-np)
+py_mul = z3.Function("py_binop_Mult", PyObj, PyObj, PyObj)
+
+
+def nan_fill(c):
+    nan = z3.Const("ext_%s" % __import__("hashlib").sha1(b"mod:np.nan").hexdigest()[:10], PyObj)
+    return py_mul(np_empty(obj_of_int(c.a["curve_length"].t)), nan)
+
+
+REG.add(Contract("lib:np.empty", params={"shape": "any"}, assumed=True, noraise=True,
+                 returns=lambda c: VObj(np_empty(c.eng.to_obj(c.a["shape"]))),
+                 note="T-np: numpy.empty(n) is a float64 array of length n; multiplied by nan it is all NaN", properties=("C07",)))
+
+
+def r8_state(c, i):
+    v, v0 = API.cv(c), API.cv(c, old=True)
+    flags = c.a["data_assigned_to_curves"]
+    data, data0 = c.h("data"), c.old("data")
+    return [
+        ("curve-list-unchanged", z3.And(v.n == v0.n, v.A == v0.A, v.s == v0.s)),
+        ("a-curve-without-a-column-holds-float-NaN-of-the-common-length", forall(q, z3.Implies(
+            z3.And(0 <= q, q < i, z3.Not(z3.Select(flags.cols[0], q))), z3.Select(data, v.item(q)) == nan_fill(c)))),
+        ("curves-that-got-a-column-keep-it", forall(q, z3.Implies(
+            z3.And(0 <= q, q < v.n, z3.Or(q >= i, z3.Select(flags.cols[0], q))), z3.Select(data, v.item(q)) == z3.Select(data0, v.item(q))))),
+    ]
+
+
+R8 = REG.add(Contract(
+    "las.LASFile.read#R8-nan-fill",
+    params={"self": API.LAS, "data_assigned_to_curves": LIST(BOOL), "curve_length": INT},
+    requires=lambda c: API.las_shape(c) + [("distinct-curve-objects", LI.distinct_objects(API.cv(c))),
+                                           ("one-flag-per-curve", c.a["data_assigned_to_curves"].n == API.cv(c).n)],
+    ensures=lambda c: r8_state(c, c.a["data_assigned_to_curves"].n),
+    loops={0: lambda c: r8_state(c, c.i)}, loop_fields=["data"], dict_like=("data_assigned_to_curves",),
+    modifies={"data": None},
+    verify_with=block_verifier("las.LASFile.read", "for curve_idx, flag in data_assigned_to_curves.items():",
+                               "for curve_idx, flag in data_assigned_to_curves.items():", "las"),
+    properties=("C07",), may_raise=["Any"]))
+R8.note = "np.empty(n) * np.nan is an opaque numpy expression (T-np: float64 NaN array of length n)"
